@@ -38,6 +38,44 @@ def traced(cfg):
             if last is not None and np.any(~np.isfinite(last)):
                 seen_inf_store.append(where + ": committed logl holds non-finite values")
 
+    directed = c.get("directed")
+    from tvf.tap import Tap
+    tap = Tap(cap=None)
+    if directed:
+        f = c["tkw"]["f"]
+        rngd = np.random.default_rng(c["seed"])
+
+        def crafted(pattern):
+            def make(*shape):
+                n, dd = shape
+                uu = rngd.random((n, dd))
+                zero = np.zeros(n, bool)
+                if pattern == "row0":
+                    zero[0] = True
+                elif pattern == "last":
+                    zero[-1] = True
+                elif pattern == "rows01":
+                    zero[:2] = True
+                elif pattern == "one-random":
+                    zero[int(rngd.integers(n))] = True
+                elif pattern == "all-but-one":
+                    zero[:] = True
+                    zero[int(rngd.integers(n))] = False
+                uu[:, 0] = np.where(zero, f + (1 - f) * uu[:, 0], f * uu[:, 0])
+                return uu
+            return make
+        # the first two np.random.rand calls of a run are the prior batches of the first two (warm-up) iterations
+        tap.serve("rand", [crafted(directed), crafted(directed)])
+    tap.__enter__()
+    try:
+        return _traced_body(c, s, t, like, batches, bad, seen_inf_store, chk_store)
+    finally:
+        tap.__exit__()
+
+
+def _traced_body(c, s, t, like, batches, bad, seen_inf_store, chk_store):
+    from tempest.steps.mutate import Mutator
+    from tempest.steps.resample import Resampler
     with attach.Hooks() as hk:
         def mb(self, ms):
             return (self.state.get_current("beta"), like.n_points, like.n_inf)
@@ -98,6 +136,12 @@ def run():
                                kernel=["tpcn", "rwm"][i % 2], resample=["mult", "syst"][(i // 2) % 2], seed=ck.subseed("tr", i))
                     tasks.append(("tvf.checks.c11:traced", dict(cfg=cfg), None))
                     i += 1
+    # directed batches: the RNG interposer serves prior draws in which exactly the chosen rows have zero likelihood
+    for j, pat in enumerate(["row0", "last", "rows01", "one-random", "all-but-one"]):
+        for N, mode in ((32, "vec"), (24, "blobs")):
+            cfg = dict(target="support", tkw=dict(f=0.7), N=N, n_total=3 * N, ess_ratio=3.0, mode=mode, kernel=["tpcn", "rwm"][j % 2],
+                       seed=ck.subseed("dir", j, N), directed=pat)
+            tasks.append(("tvf.checks.c11:traced", dict(cfg=cfg), None))
     # deliberate probe of the all-zero batch mechanism (tiny support, tiny batch)
     for r in range(2):
         tasks.append(("tvf.checks.c11:traced", dict(cfg=dict(target="support", tkw=dict(f=0.02), N=8, n_total=16, ess_ratio=2.0, mode="vec",
@@ -112,6 +156,8 @@ def run():
             continue
         ck.case(dict(traced=cfg), nontrivial=val["inf_seen"] > 0 if "inf_seen" in val else False)
         ck.event("traced runs")
+        if cfg.get("directed"):
+            ck.event("directed warm-up batches (chosen rows in the zero-likelihood region)", 2)
         ck.event("warm-up (beta=0) iterations checked against the hull", val["warm"])
         ck.event("-inf likelihood evaluations observed during warm-up", val.get("inf_seen", 0))
         for key, what in val["bad"]:
